@@ -1,6 +1,7 @@
 import SqlObjVerif.Lemmas.OrmVal
 import SqlObjVerif.Lemmas.OrmValXSync
 import SqlObjVerif.Lemmas.OrmValXSet
+import SqlObjVerif.Lemmas.OrmValXSetKw
 /-!
 # C16 — lazy updates: nothing written before sync, exactly the pending values after
 
@@ -380,6 +381,23 @@ theorem C16_translated_setValue_eq_model (cfg : Cfg) (i : Iface) (s : State) (h 
     absUnit o.cls o.id h (setValueX o.cls o.id (cfg.ncols o.cls) h (absW cfg i s o cv fail) c inp) =
       some (opSetattr cfg s h c inp fail) :=
   setValueX_eq cfg i s h o cv fail c inp ho hrep hc hi hbad
+
+open SqlObjVerif.PyMain in
+/-- `set(<c>=value)` (ONE keyword; lazy and eager branch) = `opSet`: the keyword filter, the validation loop, the
+    lazy `_SO_createValues.update(kw)` (merge, not replace), the eager sorted single UPDATE, caching after success -/
+theorem C16_translated_set1_eq_model (cfg : Cfg) (i : Iface) (s : State) (h : Hnd) (o : Inst) (cv : Pend)
+    (fail : Bool) (c : Col) (inp : Inp) (ho : s.objs h = some o) (hrep : Rep cv o.pending)
+    (hc : c < cfg.ncols o.cls) (hi : i.Ok cfg o.cls) (hbad : inp = .bad → i.hasFrom c = true) :
+    absUnit o.cls o.id h (setX o.cls o.id (cfg.ncols o.cls) h (absW cfg i s o cv fail) [(c, inp)]) =
+      some (opSet cfg s h [(c, inp)] fail) :=
+  setX1_eq cfg i s h o cv fail c inp ho hrep hc hi hbad
+
+open SqlObjVerif.PyMain in
+/-- `set()` without keywords = `opSet … []`: nothing changes, nothing is sent -/
+theorem C16_translated_set0_eq_model (cfg : Cfg) (i : Iface) (s : State) (h : Hnd) (o : Inst) (cv : Pend)
+    (fail : Bool) (ho : s.objs h = some o) (hrep : Rep cv o.pending) :
+    absUnit o.cls o.id h (setX o.cls o.id (cfg.ncols o.cls) h (absW cfg i s o cv fail) []) = some (opSet cfg s h [] fail) :=
+  setX0_eq cfg i s h o cv fail ho hrep
 
 /-- non-vacuity: the hypotheses hold for a lazy instance with pending values kept in insertion order -/
 example : Rep [(2, some 5), (0, none)] [(0, none), (2, some 5)] := ⟨by decide, by decide⟩
